@@ -251,7 +251,7 @@ def leaf_backref(ctx):
     return check_table("BackReference", b, paths, atoms, spec, outcome)
 
 
-@rule("EQCASE-TABLE", ["C11"], floor=3)
+@rule("EQCASE-TABLE", ["C11", "C19", "C13", "C01"], floor=3)
 def eqcase_table(ctx):
     """equal_case_blind(a,b) = a==b or f(a)==f(b) with the same simple case mapping f on both sides."""
     b = ctx.body("re_matcher::ReMatcher::equal_case_blind")
